@@ -708,11 +708,10 @@ def n6(x, m): return [6, (V6BASE | x) >> 64, (V6BASE | x) & ((1 << 64) - 1), m]
 class Prop:
     pid = 'C14'
     props_file = 'Props/C14.v'
-    required_theorems = ['eval_code_eq_spec_outside_known', 'eval_spec_is_functional', 'eval_code_eq_spec_refuted',
+    required_theorems = ['eval_code_eq_spec', 'eval_spec_is_functional', 'aspath_regex_ignored_pre_fix_refuted',
                          'eval_never_panics_api', 'eval_never_panics_wire', 'crud_preserves_references',
-                         'crud_referenced_frozen', 'wire_aspath_decoded', 'api_built_assignments_wf',
-                         'prefix_set_longest_match_refuted', 'aspath_patterns_refuted',
-                         'arithmetic_and_api_refuted']
+                         'crud_referenced_frozen', 'wire_aspath_decoded', 'wire_aspath_rendered', 'api_built_assignments_wf',
+                         'prefix_set_longest_match_refuted', 'aspath_patterns_refuted', 'arithmetic_and_api_refuted']
     correspondence_name = ('Model/Policy.v eval_code + Model/PolicyTable.v crud_step vs table/src/policy.rs PolicyTable / '
                            'apply_import / apply_export (harness/hx-policy)')
     rule = ('case = a sequence of PolicyTable API calls (add/replace/delete of defined sets, statements, policies, assignments) '
